@@ -1235,8 +1235,9 @@ class WorkflowConductor(object):
             self.errors.remove(e)
 
         # If task has items, then use existing staged task entry and reset failed items.
-        if task_spec.has_items():
-            staged_task = self.workflow_state.get_staged_task(task_id, route)
+        # The staged task entry is kept only if the task with items failed. If there
+        # is no staged task entry, the task is rerun like any other task.
+        if task_spec.has_items() and staged_task:
             for item in staged_task.get("items", []):
                 if reset_items or item["status"] in statuses.ABENDED_STATUSES:
                     item["status"] = statuses.UNSET
